@@ -37,7 +37,7 @@ def state_id(body, op, bb, depth=0):
         return ids.pop()
     return None
 
-def track(body, param='args'):
+def track(body, param='args', want='Ok'):
     """returns list of (path, final scope of the parameter state, kind of return) for Ok returns"""
     def sk(i):
         return ('sc', i)
@@ -84,7 +84,7 @@ def track(body, param='args'):
         if p.end != 'return':
             continue
         v = p.ret
-        if v is UNKNOWN or v[0] != 'agg' or v[2] != 'Ok':
+        if v is UNKNOWN or v[0] != 'agg' or v[2] != want:
             continue
         out.append(p)
     return w, out
